@@ -17,6 +17,7 @@ import CM.Model.Account
 import CM.Model.RateLimit
 import CM.Model.FileLock
 import CM.Model.OCSP
+import CM.Model.Challenge
 namespace CM.Tie.Fn
 open CM.Go CM.Lookup
 
@@ -401,7 +402,7 @@ theorem C08_tie_fn_fileLockIsStale (now created updated : Nat) :
 present, is a real instant (not the zero time), with an absent NextUpdate handed over as the zero time. -/
 theorem C14_tie_fn_currentOCSP (now : Int) (r : CM.OCSP.Resp)
     (hnu : ∀ nu, r.nextUpdate = some nu → nu ≠ 0) :
-    CM.Gen.Fn.currentOCSP now ⟨r.thisUpdate, r.nextUpdate.getD 0⟩ = CM.OCSP.current now r := by
+    CM.Gen.Fn.currentOCSP now ⟨r.thisUpdate, r.nextUpdate.getD 0, 0⟩ = CM.OCSP.current now r := by
   unfold CM.Gen.Fn.currentOCSP CM.OCSP.current
   simp only [time_Before, time_After, time_IsZero]
   cases hn : r.nextUpdate with
@@ -419,5 +420,69 @@ theorem C14_tie_fn_currentOCSP (now : Int) (r : CM.OCSP.Resp)
     all_goals (first | (have a : ¬ now < r.thisUpdate := by omega) | (have a : now < r.thisUpdate := by omega))
     all_goals (first | (have b : ¬ now > nu := by omega) | (have b : now > nu := by omega))
     all_goals simp [h, h2, a, b]
+
+/-! ### pointers: `expiresAt` (C03), `certShouldBeForceRenewed` (C14), `LooksLikeHTTPChallenge` (C15) -/
+
+/-- **the model's `expiresAt` IS the translated `expiresAt`** on a certificate (NotAfter truncated to the
+second, plus one second), and the translated function returns the zero time for a nil certificate. -/
+theorem C03_tie_fn_expiresAt (na : Int) :
+    CM.Gen.Fn.expiresAt (some ⟨na⟩) = CM.Lookup.expiresAt na ∧ CM.Gen.Fn.expiresAt none = 0 := by
+  constructor
+  · unfold CM.Gen.Fn.expiresAt CM.Lookup.expiresAt CM.Lookup.sec
+    simp only [Option.isNone_some, Bool.false_eq_true, if_false, deref, Option.getD_some, time_Add, time_Truncate]
+    have h : ¬ ((1000000000 : Int) ≤ 0) := by omega
+    simp only [h, if_false]
+    show (na - na % 1000000000 + 1000000000 : Int) = na / 1000000000 * 1000000000 + 1000000000
+    omega
+  · rfl
+
+/-- the OCSP status codes of `golang.org/x/crypto/ocsp` (Good = 0, Revoked = 1, Unknown = 2) -/
+def statusCode : CM.OCSP.Status → Int
+  | .good => 0
+  | .revoked => 1
+  | .unknown => 2
+
+/-- a model response as the translated struct -/
+def encResp (r : CM.OCSP.Resp) : CM.Gen.Fn.ocsp_Response := ⟨r.thisUpdate, r.nextUpdate.getD 0, statusCode r.status⟩
+
+/-- **the model's `shouldForce` IS the translated `certShouldBeForceRenewed`**: for every cache entry
+(managed or not, any list of names, with or without a stapled response of any status). -/
+theorem C14_tie_fn_certShouldBeForceRenewed (managed : Bool) (names : List Str) (o : Option CM.OCSP.Resp) :
+    CM.Gen.Fn.certShouldBeForceRenewed ⟨names, managed, o.map encResp⟩
+      = CM.OCSP.shouldForce managed (!names.isEmpty) o := by
+  unfold CM.Gen.Fn.certShouldBeForceRenewed CM.OCSP.shouldForce
+  have hlen : decide (Go.len names > (0 : Int)) = !names.isEmpty := by
+    cases names with
+    | nil => rfl
+    | cons a t => simp [Go.len, Len.lenN]
+  simp only [hlen]
+  cases o with
+  | none => simp
+  | some r =>
+    have hs : ((statusCode r.status == (1 : Int)) = decide (r.status = .revoked)) := by
+      cases r.status <;> rfl
+    simp [deref, encResp, hs]
+
+/-- **the two tests at the head of the model's `httpAnswer` ARE the translated `LooksLikeHTTPChallenge`**
+(method GET and the path below `/.well-known/acme-challenge`, the literal taken from the source). -/
+theorem C15_tie_fn_LooksLikeHTTPChallenge (r : CM.Challenge.HttpReq) :
+    CM.Gen.Fn.LooksLikeHTTPChallenge ⟨r.method, ⟨r.path⟩⟩
+      = (r.method == CM.Challenge.GET && CM.Challenge.basePath.isPrefixOf r.path) := rfl
+
+/-- … and a request that does not look like a challenge is passed on, whatever else holds -/
+theorem C15_tie_fn_not_looking_passes (E : CM.Challenge.Env) (S : CM.Challenge.State) (n : Nat)
+    (ps : List Str) (disabled : Bool) (r : CM.Challenge.HttpReq)
+    (h : CM.Gen.Fn.LooksLikeHTTPChallenge ⟨r.method, ⟨r.path⟩⟩ = false) :
+    CM.Challenge.httpAnswer E S n ps disabled r = .pass := by
+  rw [C15_tie_fn_LooksLikeHTTPChallenge] at h
+  unfold CM.Challenge.httpAnswer
+  cases disabled
+  · cases hm : (r.method == CM.Challenge.GET)
+    · have : (r.method != CM.Challenge.GET) = true := by simp [bne, hm]
+      simp [this]
+    · have hp : CM.Challenge.basePath.isPrefixOf r.path = false := by simpa [hm] using h
+      have : (r.method != CM.Challenge.GET) = false := by simp [bne, hm]
+      simp [this, hp]
+  · simp
 
 end CM.Tie.Fn
